@@ -548,14 +548,15 @@ class BlockUploadStream(io.RawIOBase):
             response = self.sdo_client.read_response()
         except SdoCommunicationError:
             response = self._retransmit()
-        res_command, = struct.unpack_from("B", response)
-        seqno = res_command & 0x7F
-        if seqno == self._ackseq + 1:
-            self._ackseq = seqno
         else:
-            # Wrong sequence number
-            response = self._retransmit()
             res_command, = struct.unpack_from("B", response)
+            seqno = res_command & 0x7F
+            if seqno == self._ackseq + 1:
+                self._ackseq = seqno
+            else:
+                # Wrong sequence number
+                response = self._retransmit()
+        res_command, = struct.unpack_from("B", response)
         if self._ackseq >= self.blksize or res_command & NO_MORE_BLOCKS:
             self._ack_block()
         if res_command & NO_MORE_BLOCKS:
@@ -573,6 +574,11 @@ class BlockUploadStream(io.RawIOBase):
                     raise SdoCommunicationError("CRC is not OK")
                 logger.info("CRC is OK")
         self.pos += len(data)
+        if self._done and self.size is not None and self.pos != self.size:
+            self._error = True
+            self.sdo_client.abort(0x06070010)
+            raise SdoCommunicationError(
+                f"Received {self.pos} bytes but the server announced {self.size}")
         return data
 
     def _retransmit(self):
@@ -580,6 +586,9 @@ class BlockUploadStream(io.RawIOBase):
                     self._ackseq)
         end_time = time.time() + self.sdo_client.RESPONSE_TIMEOUT
         self._ack_block()
+        # The server goes on after the last acknowledged segment with a new
+        # sub-block, which is numbered from 1 again
+        self._ackseq = 0
         while time.time() < end_time:
             try:
                 response = self.sdo_client.read_response()
